@@ -261,11 +261,11 @@ def c10_jobs(tier, seed):
     q = tier == 'quick'
     for fam, n in C10_FAMS:
         for env in (0, 3, 7):
-            jobs.append(TraceJob(SMALL, fam, shards=1 if q else 4, args=['--cases', n if q else n * 8, '--env', env, '--extra', 'nobig'],
+            jobs.append(TraceJob(SMALL, fam, shards=1 if q else 4, args=['--cases', n if q else n * 8, '--env', env, '--extra', 'nobig,nosweep'],
                                  label='%s@%s#env%d' % (fam, SMALL, env), timeout=3400))
         if not q:
             for env in (0, 7):
-                jobs.append(TraceJob(HOST, fam, shards=2, args=['--cases', n * 2, '--env', env, '--extra', 'nobig'], label='%s@%s#env%d' % (fam, HOST, env), timeout=3400))
+                jobs.append(TraceJob(HOST, fam, shards=2, args=['--cases', n * 2, '--env', env, '--extra', 'nobig,nosweep'], label='%s@%s#env%d' % (fam, HOST, env), timeout=3400))
     return jobs
 
 
@@ -300,8 +300,10 @@ def c12_jobs(tier, seed):
     q = tier == 'quick'
     for cfg in (C12_CFGS_Q if q else C12_CFGS_T):
         for fam, n in C12_FAMS:
-            jobs.append(TraceJob(cfg, fam, shards=1 if q else 2, args=['--cases', n if q else n * 4, '--extra', 'nobig' if q else ''], label='%s@%s' % (fam, cfg), timeout=3400,
-                                 env={'OMP_NUM_THREADS': '3'}))
+            # the block-recursive PLE is only entered in the small-cache configurations at these sizes: keep its big shapes there
+            ex = 'nosweep' if (fam == 'ple' and cfg.startswith('small')) or not q else 'nobig,nosweep'
+            jobs.append(TraceJob(cfg, fam, shards=(2 if fam == 'ple' and cfg.startswith('small') else 1) if q else 2, args=['--cases', n if q else n * 4, '--extra', ex],
+                                 label='%s@%s' % (fam, cfg), timeout=3400, env={'OMP_NUM_THREADS': '3'}))
     return jobs
 
 
